@@ -15,7 +15,10 @@ ChainOk(r) ==
      /\ r.terminated /\ r.ok                       \* every chain of any length succeeds
      /\ NoDup(r.out)
      /\ \A i \in 1..Len(r.out) : ParseKey(r.out[i]).ok
-     /\ {ParseKey(r.out[i]).k : i \in 1..Len(r.out)} = Spellings(target)
+     /\ LET printed == {ParseKey(r.out[i]).k : i \in 1..Len(r.out)} IN
+        /\ Spellings(target) \subseteq printed                                    \* every spelling of the 28 keys the property names ...
+        /\ \A k \in printed : KeyPc(k) = target.pc /\ k.minor = target.minor        \* ... and nothing that is not a spelling of the target
+                                                                                 \* (a crd that supports more keys, e.g. Abm, lists more)
 \* very long chains are given run-length encoded: <<letter, count>> segments.  n equal steps are n mod 12 dominants /
 \* subdominants (twelve fifths return to the start: CircleMC) or n mod 2 relatives / parallels (involutions)
 Period(c) == IF c \in {"d", "s"} THEN 12 ELSE 2
@@ -28,7 +31,10 @@ LongChainOk(r) ==
      /\ r.terminated /\ r.ok                       \* every chain of any length succeeds
      /\ NoDup(r.out)
      /\ \A i \in 1..Len(r.out) : ParseKey(r.out[i]).ok
-     /\ {ParseKey(r.out[i]).k : i \in 1..Len(r.out)} = Spellings(target)
+     /\ LET printed == {ParseKey(r.out[i]).k : i \in 1..Len(r.out)} IN
+        /\ Spellings(target) \subseteq printed                                    \* every spelling of the 28 keys the property names ...
+        /\ \A k \in printed : KeyPc(k) = target.pc /\ k.minor = target.minor        \* ... and nothing that is not a spelling of the target
+                                                                                 \* (a crd that supports more keys, e.g. Abm, lists more)
 RecOk(r) == CASE r.kind = "skipped" -> TRUE [] r.kind = "chain" -> ChainOk(r) [] r.kind = "longchain" -> LongChainOk(r) [] OTHER -> FALSE
 Inv == l <= Len(Recs) => RecOk(Recs[l])
 =============================================================================
